@@ -89,7 +89,7 @@ def run(ck):
         ctor = dict(rfm_params=xr.default_rfm_params(iters=1, reg=1e-2, bandwidth=3.0, bandwidth_mode=['constant', 'adaptive'][i % 2]),
                     max_leaf_size=int(rng.integers(15, 40)), n_trees=[1, 2][i % 2], verbose=False, tuning_metric=metric, split_method=method,
                     classification_mode=['zero_one', 'prevalence'][i % 2], refill_size=15, temp_tuning_space=[0.0, 0.05, 0.5, 3.0],
-                    random_state=100 + i, n_tree_iters=tree_iters)
+                    random_state=(0 if i % 5 == 0 else 100 + i), n_tree_iters=tree_iters)        # the seed 0 is a seed like any other
         if i % 6 == 4:
             ctor['rfm_params'] = None          # the library's default leaf model (rfm_params=None aliases default_rfm_params)
         D = data(task, int(rng.integers(90, 200)), d)
